@@ -405,8 +405,10 @@ structure SimMod (cfg : Cfg) (am : AMod) (m : Module) : Prop where
 it) and the model's state (after running the same history): the connections the Spec considers alive are exactly the
 table entries other than the manager's own; for each, identity, flags, name, pid and subscriptions agree; the receive
 buffer, the failure environment, the accept counter and — on live connections — the writable set agree.  The statistics
-fields of `A` are not constrained.  The last four clauses are facts about the model alone (the members of the logger set
-that are in the table are exactly the modules with the logger flag, each listed once, and those are connected). -/
+fields of `A` are not constrained.  The last clauses are facts about the model alone: the members of the logger set
+that are in the table are exactly the modules with the logger flag, each listed once, and those are connected; no uid
+that was not handed out yet is in the logger set; a module is listed in the subscription index under every type of its own
+`subs` (the converse of `SubInv.sub`), and the manager's own table entry is listed nowhere. -/
 structure Sim (cfg : Cfg) (a : Spec.A) (s : State) : Prop where
   uids : a.mods.map (·.uid) = (List.range a.nAccepted).map (· + 1)
   nacc : a.nAccepted = s.nextUid
@@ -420,6 +422,8 @@ structure Sim (cfg : Cfg) (a : Spec.A) (s : State) : Prop where
   logConn : ∀ u m, s.find u = some m → m.isLogger = true → m.connected = true
   logNodup : s.loggers.Nodup
   logBound : ∀ u, u ∈ s.loggers → u ≤ s.nextUid
+  idxIn : ∀ u m t, s.find u = some m → t ∈ m.subs → u ∈ idxGet s.idx t
+  idxPos : ∀ t u, u ∈ idxGet s.idx t → u ≠ 0
 
 theorem mem_closes (evs : List Ev) (u : Nat) : u ∈ Spec.closes evs ↔ Ev.close u ∈ evs := by
   unfold Spec.closes
@@ -433,6 +437,9 @@ theorem mem_closes (evs : List Ev) (u : Nat) : u ∈ Spec.closes evs ↔ Ev.clos
 theorem closeCnt_pos {evs : List Ev} {u : Nat} (h : Ev.close u ∈ evs) : 0 < closeCnt evs u := by
   unfold closeCnt
   exact List.countP_pos_iff.mpr ⟨_, h, by simp [isClose]⟩
+
+theorem core_subs {a b : Module} (h : a.core = b.core) : a.subs = b.subs := by
+  unfold Module.core at h; cases a; cases b; simp_all
 
 theorem simMod_core {cfg : Cfg} {am : Spec.AMod} {m m' : Module} (h : SimMod cfg am m) (e : m'.core = m.core) :
     SimMod cfg am m' := by
@@ -481,7 +488,7 @@ theorem sim_quiet {cfg : Cfg} {a : Spec.A} {s s' : State} (hs : Sim cfg a s) (ao
   have live' : ∀ u, (Spec.applyDepartures a ext').live u = if (Spec.closes ext').contains u then none else a.live u :=
     Spec.applyDepartures_live a ext'
   refine ⟨by rw [Spec.applyDepartures_uids, hna]; exact hs.uids, by rw [hna, n.nuid]; exact hs.nacc,
-    by rw [hfl, n.fail]; exact hs.fail, by rw [hb, n.buf]; exact hs.buf, ?_, ?_, ?_, ?_, ?_, ?_, ?_, ?_⟩
+    by rw [hfl, n.fail]; exact hs.fail, by rw [hb, n.buf]; exact hs.buf, ?_, ?_, ?_, ?_, ?_, ?_, ?_, ?_, ?_, ?_⟩
   · intro u hu
     rw [live']
     by_cases hc : (Spec.closes ext').contains u = true
@@ -526,6 +533,10 @@ theorem sim_quiet {cfg : Cfg} {a : Spec.A} {s s' : State} (hs : Sim cfg a s) (ao
     rw [e'.2]; exact hs.logConn u m hm (by rw [← e'.1]; exact h1)
   · exact n.logSub.nodup hs.logNodup
   · intro u hu; rw [n.nuid]; exact hs.logBound u (n.logSub.subset hu)
+  · intro u m' t hm' ht
+    obtain ⟨m, hm, e⟩ := n.surv u m' hm' (ao' u m' hm')
+    exact n.idxKeep t u (hs.idxIn u m t hm (by rw [← core_subs e]; exact ht)) ⟨m', hm', ao' u m' hm'⟩
+  · intro t u hu; exact hs.idxPos t u (n.idxSub t u hu)
 
 /-! ## the simulation on a set of connections
 
@@ -547,14 +558,18 @@ structure SimOn (P : Nat → Prop) (cfg : Cfg) (a : Spec.A) (s : State) : Prop w
   logConn : ∀ u m, P u → s.find u = some m → m.isLogger = true → m.connected = true
   logNodup : s.loggers.Nodup
   logBound : ∀ u, u ∈ s.loggers → u ≤ s.nextUid
+  idxIn : ∀ u m t, P u → s.find u = some m → t ∈ m.subs → u ∈ idxGet s.idx t
+  idxPos : ∀ t u, u ∈ idxGet s.idx t → u ≠ 0
 
 theorem Sim.on {cfg : Cfg} {a : Spec.A} {s : State} (h : Sim cfg a s) (P : Nat → Prop) : SimOn P cfg a s :=
   ⟨h.uids, h.nacc, h.fail, h.buf, fun u _ => h.live u, fun u am m _ => h.mods u am m, fun u _ => h.w u,
-   fun u m _ => h.logIn u m, fun u m _ => h.logOut u m, fun u m _ => h.logConn u m, h.logNodup, h.logBound⟩
+   fun u m _ => h.logIn u m, fun u m _ => h.logOut u m, fun u m _ => h.logConn u m, h.logNodup, h.logBound,
+   fun u m t _ => h.idxIn u m t, h.idxPos⟩
 
 theorem SimOn.all {cfg : Cfg} {a : Spec.A} {s : State} (h : SimOn (fun _ => True) cfg a s) : Sim cfg a s :=
   ⟨h.uids, h.nacc, h.fail, h.buf, fun u => h.live u trivial, fun u am m => h.mods u am m trivial, fun u => h.w u trivial,
-   fun u m => h.logIn u m trivial, fun u m => h.logOut u m trivial, fun u m => h.logConn u m trivial, h.logNodup, h.logBound⟩
+   fun u m => h.logIn u m trivial, fun u m => h.logOut u m trivial, fun u m => h.logConn u m trivial, h.logNodup, h.logBound,
+   fun u m t => h.idxIn u m t trivial, h.idxPos⟩
 
 /-- `sim_quiet` on a set of connections -/
 theorem simOn_quiet {P : Nat → Prop} {cfg : Cfg} {a : Spec.A} {s s' : State} (hs : SimOn P cfg a s) (ao : AllOpen s)
@@ -568,7 +583,7 @@ theorem simOn_quiet {P : Nat → Prop} {cfg : Cfg} {a : Spec.A} {s s' : State} (
   have live' : ∀ u, (Spec.applyDepartures a ext').live u = if (Spec.closes ext').contains u then none else a.live u :=
     Spec.applyDepartures_live a ext'
   refine ⟨by rw [Spec.applyDepartures_uids, hna]; exact hs.uids, by rw [hna, n.nuid]; exact hs.nacc,
-    by rw [hfl, n.fail]; exact hs.fail, by rw [hb, n.buf]; exact hs.buf, ?_, ?_, ?_, ?_, ?_, ?_, ?_, ?_⟩
+    by rw [hfl, n.fail]; exact hs.fail, by rw [hb, n.buf]; exact hs.buf, ?_, ?_, ?_, ?_, ?_, ?_, ?_, ?_, ?_, ?_⟩
   · intro u hp hu
     rw [live']
     by_cases hc : (Spec.closes ext').contains u = true
@@ -613,6 +628,10 @@ theorem simOn_quiet {P : Nat → Prop} {cfg : Cfg} {a : Spec.A} {s s' : State} (
     rw [e'.2]; exact hs.logConn u m hp hm (by rw [← e'.1]; exact h1)
   · exact n.logSub.nodup hs.logNodup
   · intro u hu; rw [n.nuid]; exact hs.logBound u (n.logSub.subset hu)
+  · intro u m' t hp hm' ht
+    obtain ⟨m, hm, e⟩ := n.surv u m' hm' (ao' u m' hm')
+    exact n.idxKeep t u (hs.idxIn u m t hp hm (by rw [← core_subs e]; exact ht)) ⟨m', hm', ao' u m' hm'⟩
+  · intro t u hu; exact hs.idxPos t u (n.idxSub t u hu)
 
 /-- the event part of `Nest`: also satisfied by steps that rewrite fields of a table entry without opening or closing
     anything -/
